@@ -1,7 +1,9 @@
 package props
 
 import (
+	"encoding/hex"
 	"fmt"
+	"strconv"
 	"strings"
 	"unicode/utf8"
 
@@ -18,7 +20,7 @@ func init() {
 	harness.Register(&harness.Property{
 		ID: "C15", Run: runC15, Oracle: oracleC15, Minimize: true,
 		Rule: "cases: for each of QuoteSQLString / QuoteSQLBytes / QuoteSQLIdent: every 1- and 2-byte string (65 792), every Unicode scalar value (1 112 064, UTF-8 encoded), " +
-			"and random strings <=40 bytes over quotes, back-quote, backslash, controls, non-printables, multi-byte runes, invalid UTF-8 and keywords. " +
+			"and random strings <=40 bytes over quotes, back-quote, backslash, controls, non-printables, multi-byte runes, invalid UTF-8 and keywords; runs of 1..300 (and around 512 ... 65536) copies of each of 18 byte/rune classes, mixtures of 2-4 runs, and small values quoted right after a huge one (4 KiB - 300 KiB) on the same goroutine. " +
 			"Oracle: the quoted text lexes (memefish.Lexer and the reference lexer) to exactly one token of the right kind whose value is the original string. " +
 			"Last clause (values survive SQL()): ~110 templates (typed literals, field access on every operand kind, names in expressions, queries, hints, DDL, DML, types) and generator sentences filled with composed values; " +
 			"every identifier / string / bytes value held by the accepted tree must be found, in order and with its kind, among the tokens of SQL() as decoded by the reference lexer. " +
@@ -45,8 +47,26 @@ func identShaped(s string) bool {
 
 func oracleC15(ctx *harness.Ctx, cs *harness.Case) (ds []harness.Discrepancy) {
 	s := cs.Input
+	if cs.Aux["runs"] != "" {
+		s = expandRuns(cs.Aux["runs"]) // long values are stored as run lengths
+	}
 	add := func(sig, msg string) {
-		ds = append(ds, harness.Discrepancy{Sig: sig, Msg: msg + " fn=" + cs.Entry + " input=" + q(trunc(s, 80))})
+		ds = append(ds, harness.Discrepancy{Sig: sig, Msg: msg + " fn=" + cs.Entry + " input=" + q(trunc(s, 80)) + " aux=" + fmt.Sprint(cs.Aux)})
+	}
+	if pre := cs.Aux["pre"]; pre != "" {
+		// an earlier, unrelated call (a huge value) on the same goroutine: the call under test must not see anything of it
+		fn, runs, _ := strings.Cut(pre, ":")
+		guarded(func() ([]astNode, error) {
+			switch v := expandRuns(runs); fn {
+			case "QuoteSQLString":
+				_ = token.QuoteSQLString(v)
+			case "QuoteSQLBytes":
+				_ = token.QuoteSQLBytes([]byte(v))
+			default:
+				_ = token.QuoteSQLIdent(v)
+			}
+			return nil, nil
+		})
 	}
 	if strings.HasPrefix(cs.Entry, "survive:") {
 		c15Survive(cs, add)
@@ -124,6 +144,39 @@ func valueClass(s string) string {
 		return "quote-or-backslash"
 	}
 	return "plain"
+}
+
+// expandRuns decodes "hex*count,hex*count,...".
+func expandRuns(spec string) string {
+	var b strings.Builder
+	for _, part := range strings.Split(spec, ",") {
+		h, c, ok := strings.Cut(part, "*")
+		if !ok {
+			continue
+		}
+		unit, err := hex.DecodeString(h)
+		n, err2 := strconv.Atoi(c)
+		if err != nil || err2 != nil || n < 0 || n*len(unit) > 1<<22 {
+			continue
+		}
+		b.WriteString(strings.Repeat(string(unit), n))
+	}
+	return b.String()
+}
+
+// c15RunUnits: one unit per class of byte that the quoting functions treat differently.
+var c15RunUnits = []string{"\x00", "\x1f", "\x7f", "\xff", "\xc3", "\n", "'", "\"", "`", "\\", "a", "é", "\u0080", "\u00ad", "日", "\ufffd", "😀", "\U000e0001"}
+
+func c15Runs(ctx *harness.Ctx, t harness.T, leg, fn, runs, pre string) bool {
+	cs := &harness.Case{Leg: leg, Entry: fn, Aux: map[string]string{"runs": runs}}
+	if pre != "" {
+		cs.Aux["pre"] = pre
+	}
+	ds := oracleC15(ctx, cs)
+	ctx.Eval(1)
+	ctx.Class("runs")
+	ctx.NonTrivial(harness.Hash(fn, runs, pre))
+	return ctx.Check(t, cs, ds)
 }
 
 func c15One(ctx *harness.Ctx, t harness.T, leg, fn, s string) bool {
@@ -234,6 +287,52 @@ func runC15(ctx *harness.Ctx) {
 	})
 	parts := []string{"'", "\"", "`", "\\", "\n", "\r", "\t", "\x00", "\x01", "\x7f", "\x80", "\xff", "\xc3", "\xc3\xa9", "é", "日", "\u0085", "\u00a0", " ", "\ufeff", "\U0001F600",
 		"a", "B", "_", "1", " ", "select", "NULL", "x", "''", "\"\"", "'''", "\"\"\"", "\\x", "\\n", "?", ";", "--", "/*", "\xed\xa0\x80", "\xf4\x90\x80\x80", "\U0010FFFF", "\u200b"}
+	// long runs: n copies of one unit, every n in 0..300 and the neighbourhoods of 512 ... 65536 (chunked formatting, scratch arrays,
+	// buffers that are kept or dropped by size); then two and three runs; then small values right after a huge one
+	ctx.Leg("long-runs", func() {
+		idx := 0
+		sizes := []int{}
+		for n := 1; n <= ctx.Pick(300, 1100); n++ {
+			sizes = append(sizes, n)
+		}
+		for b := 512; b <= 65536; b *= 2 {
+			sizes = append(sizes, b-1, b, b+1)
+		}
+		for _, fn := range quoteFns {
+			for _, u := range c15RunUnits {
+				for _, n := range sizes {
+					idx++
+					if idx%ctx.Of != ctx.Shard || n*len(u) > 70000 {
+						continue
+					}
+					if n > 4097 && !(u == "a" || u == "'" || u == "é" || (u == "\x00" && fn == "QuoteSQLBytes")) {
+						continue // memefish spends ~100 us on every \u escape it decodes: the longest runs only for cheap units
+					}
+					if !c15Runs(ctx, nil, "long-runs", fn, fmt.Sprintf("%x*%d", u, n), "") {
+						return
+					}
+				}
+			}
+		}
+		ctx.Exhaustive(fmt.Sprintf("3 functions x %d units x run lengths 1..%d and 2^k-1..2^k+1 up to 65537 bytes", len(c15RunUnits), ctx.Pick(300, 1100)), ctx.ViolationCount() == 0)
+	})
+	ctx.Rapid("long-runs-mixed", ctx.Pick(1500, 30000), func(t *rapid.T) {
+		var parts []string
+		for i, k := 0, rapid.IntRange(2, 4).Draw(t, "runs"); i < k; i++ {
+			n := rapid.SampledFrom([]int{1, 2, 3, 31, 32, 33, 63, 64, 65, 66, 127, 128, 129, 255, 256, 257, 1000}).Draw(t, "n")
+			parts = append(parts, fmt.Sprintf("%x*%d", rapid.SampledFrom(c15RunUnits).Draw(t, "unit"), n))
+		}
+		c15Runs(ctx, t, "long-runs-mixed", rapid.SampledFrom(quoteFns).Draw(t, "fn"), strings.Join(parts, ","), "")
+	})
+	ctx.Rapid("after-huge", ctx.Pick(300, 5000), func(t *rapid.T) {
+		pre := fmt.Sprintf("%s:%x*%d", rapid.SampledFrom(quoteFns).Draw(t, "pre-fn"), rapid.SampledFrom([]string{"a", "0123456789abcdef", "\x00", "é", "'"}).Draw(t, "pre-unit"),
+			rapid.SampledFrom([]int{4096, 8192, 16384, 32768, 65535, 65536, 65537, 70000, 131073, 300000}).Draw(t, "pre-n"))
+		runs := fmt.Sprintf("%x*%d", rapid.SampledFrom(c15RunUnits).Draw(t, "unit"), rapid.SampledFrom([]int{1, 2, 8, 100, 127, 128, 129, 200, 5000}).Draw(t, "n"))
+		if rapid.Bool().Draw(t, "name") {
+			runs = fmt.Sprintf("%x*1", rapid.SampledFrom([]string{"my-table", "t", "select", "a b"}).Draw(t, "value"))
+		}
+		c15Runs(ctx, t, "after-huge", rapid.SampledFrom(quoteFns).Draw(t, "fn"), runs, pre)
+	})
 	ctx.Rapid("random", ctx.Pick(20000, 400000), func(t *rapid.T) {
 		n := rapid.IntRange(1, 8).Draw(t, "n")
 		var b strings.Builder
